@@ -53,9 +53,13 @@ type histEvent struct {
 	S    string `json:"s"`
 	Sh   string `json:"sh"`
 	Kind string `json:"kind"`
+	// a == "config": run-time change of the read strategy
+	To       string   `json:"to"`
+	Inflight []string `json:"inflight"`
 }
 
 type allowedRow struct {
+	St    string      `json:"st"`
 	Sh    string      `json:"sh"`
 	Kind  string      `json:"kind"`
 	Nodes []modelNode `json:"nodes"`
@@ -82,10 +86,22 @@ type badArrival struct {
 	Kind   string `json:"kind"`
 	Node   string `json:"node"`
 	Class  string `json:"class"`
+	Phase  string `json:"phase"` // "steady" | "after-config-update" | "during-config-update"
 	Detail string `json:"detail"`
 }
 
+// segment: the requests of a behaviour issued under one configured read strategy
+type segment struct {
+	Strategy string                `json:"strategy"`
+	Progs    map[string][]modelReq `json:"sessions"`
+	// the ConfigUpdate that starts this segment happened while decisions of the previous one were in flight
+	UpdateInFlight bool `json:"updateInFlight,omitempty"`
+	Arrivals       int  `json:"arrivals"`
+}
+
 type concResult struct {
+	ID         int                   `json:"id"`
+	Segments   []*segment            `json:"segments,omitempty"` // more than one: run-time strategy changes
 	Layout     string                `json:"layout"`
 	Strategy   string                `json:"strategy"`
 	Sessions   map[string][]modelReq `json:"sessions"`
@@ -108,6 +124,9 @@ type concResult struct {
 type layoutEnv struct {
 	cl      *simredis.Cluster
 	proxies map[string]*sut.Redis
+	// processors whose read strategy is changed at run time (OnSvcConfigUpdate), by the strategy they were STARTED with
+	dyn     map[string]*sut.Redis
+	dynOpts map[string]sut.RedisOpts
 	nodeID  map[int]modelNode // node index -> model identity
 	shardOf map[int]string    // master index -> shard name
 	keys    map[string][]string
@@ -118,10 +137,22 @@ func (e *layoutEnv) close() {
 	for _, p := range e.proxies {
 		sut.StopWithin(p.P, 5*time.Second)
 	}
+	for _, p := range e.dyn {
+		sut.StopWithin(p.P, 5*time.Second)
+	}
 	e.cl.Close()
 }
 
-func newLayout(shards []string, nrep int, names map[string][]string) (*layoutEnv, error) {
+var strategyOf = map[string]pbredis.ReadStrategy{"MASTER": pbredis.ReadStrategy_MASTER, "BOTH": pbredis.ReadStrategy_BOTH, "REPLICA": pbredis.ReadStrategy_REPLICA}
+
+// setStrategy changes the read strategy of the running processor through the public OnSvcConfigUpdate.
+func (e *layoutEnv) setStrategy(started, st string) error {
+	o := e.dynOpts[started]
+	o.ReadStrategy = strategyOf[st]
+	return e.dyn[started].P.OnSvcConfigUpdate(sut.RedisConfig(o))
+}
+
+func newLayout(shards []string, nrep int, names map[string][]string, withDyn bool) (*layoutEnv, error) {
 	cl, err := simredis.NewCluster(len(shards), nrep)
 	if err != nil {
 		return nil, err
@@ -152,8 +183,24 @@ func newLayout(shards []string, nrep int, names map[string][]string) (*layoutEnv
 		// a key routed by its hash tag
 		e.keys[sh] = append(e.keys[sh], tagKey(cl, i, sh))
 	}
-	strategies := map[string]pbredis.ReadStrategy{"MASTER": pbredis.ReadStrategy_MASTER, "BOTH": pbredis.ReadStrategy_BOTH, "REPLICA": pbredis.ReadStrategy_REPLICA}
-	for name, st := range strategies {
+	e.dyn, e.dynOpts = map[string]*sut.Redis{}, map[string]sut.RedisOpts{}
+	for name, st := range strategyOf {
+		if !withDyn {
+			break
+		}
+		o := sut.RedisOpts{Name: sut.UniqueName("redis"), Port: sut.FreePort(), ReadStrategy: st}
+		px, err := sut.StartRedis(o, seeds)
+		if err != nil {
+			e.close()
+			return nil, err
+		}
+		e.dyn[name], e.dynOpts[name] = px, o
+		if !sut.WaitRefresh(px.Name, 5*time.Second) {
+			e.close()
+			return nil, fmt.Errorf("slot table not loaded (started with %s)", name)
+		}
+	}
+	for name, st := range strategyOf {
 		px, err := sut.StartRedis(sut.RedisOpts{ReadStrategy: st}, seeds)
 		if err != nil {
 			e.close()
@@ -230,7 +277,7 @@ func (e *layoutEnv) concrete(r modelReq, j int) []string {
 	return []string{variant(name, j), k, "0"}
 }
 
-func scenarioKey(b *behaviour, progs map[string][]modelReq, conc bool) string {
+func progsKey(progs map[string][]modelReq) string {
 	var parts []string
 	for _, p := range progs {
 		var s []string
@@ -240,7 +287,16 @@ func scenarioKey(b *behaviour, progs map[string][]modelReq, conc bool) string {
 		parts = append(parts, strings.Join(s, ","))
 	}
 	sort.Strings(parts) // sessions are interchangeable
-	return fmt.Sprintf("%s|%v|%s", b.Strategy, conc, strings.Join(parts, " || "))
+	return strings.Join(parts, " || ")
+}
+
+type scenario struct {
+	id    int
+	b     *behaviour
+	segs  []*segment
+	conc  bool
+	count int
+	wins  map[string]bool
 }
 
 func concurrent(args []string) error {
@@ -251,6 +307,8 @@ func concurrent(args []string) error {
 	burst := fs.Int("burst", 300, "repetitions of a session's requests per connection")
 	fan := fs.Int("fan", 3, "real connections per model session")
 	heavy := fs.Int("heavy", 6, "burst multiplier for behaviours through W_OverlapForeign (mandatory stratum)")
+	from := fs.Int("from", 1, "first scenario to run (after a crash the driver is restarted behind the crashed one)")
+	to := fs.Int("to", 1<<30, "last scenario to run")
 	if err := fs.Parse(args); err != nil {
 		return err
 	}
@@ -285,13 +343,6 @@ func concurrent(args []string) error {
 		}
 		sort.Strings(names[k])
 	}
-	type scenario struct {
-		b     *behaviour
-		progs map[string][]modelReq
-		conc  bool
-		count int
-		wins  map[string]bool
-	}
 	layouts := map[string][]*scenario{}
 	var layoutOrder []string
 	index := map[string]*scenario{}
@@ -301,18 +352,30 @@ func concurrent(args []string) error {
 			return err
 		}
 		sort.Strings(b.Shards)
-		progs := map[string][]modelReq{}
+		segs := []*segment{{Strategy: b.Strategy, Progs: map[string][]modelReq{}}}
 		for _, ev := range b.Hist {
-			if ev.A == "issue" {
-				progs[ev.S] = append(progs[ev.S], modelReq{Sh: ev.Sh, Kind: ev.Kind})
+			cur := segs[len(segs)-1]
+			switch ev.A {
+			case "issue":
+				cur.Progs[ev.S] = append(cur.Progs[ev.S], modelReq{Sh: ev.Sh, Kind: ev.Kind})
+			case "config":
+				segs = append(segs, &segment{Strategy: ev.To, Progs: map[string][]modelReq{}, UpdateInFlight: len(ev.Inflight) > 0})
 			}
 		}
-		conc := len(b.Windows) > 0
+		conc := false
+		for _, wn := range b.Windows {
+			if wn != "W_RouteAfterUpdate" {
+				conc = true
+			}
+		}
 		lk := fmt.Sprintf("%dx%d", len(b.Shards), b.NRep)
-		sk := lk + "|" + scenarioKey(b, progs, conc)
+		sk := fmt.Sprintf("%s|%v", lk, conc)
+		for _, sg := range segs {
+			sk += fmt.Sprintf("|%s/%v/%s", sg.Strategy, sg.UpdateInFlight, progsKey(sg.Progs))
+		}
 		sc := index[sk]
 		if sc == nil {
-			sc = &scenario{b: b, progs: progs, conc: conc, wins: map[string]bool{}}
+			sc = &scenario{b: b, segs: segs, conc: conc, wins: map[string]bool{}}
 			index[sk] = sc
 			if _, ok := layouts[lk]; !ok {
 				layoutOrder = append(layoutOrder, lk)
@@ -327,25 +390,56 @@ func concurrent(args []string) error {
 	}); err != nil {
 		return err
 	}
-	w, err := cli.NewNDJSONWriter(*out)
+	id := 0
+	for _, lk := range layoutOrder {
+		for _, sc := range layouts[lk] {
+			id++
+			sc.id = id
+		}
+	}
+	w, err := newLineWriter(*out)
 	if err != nil {
 		return err
 	}
 	defer w.Close()
+	if err := w.Write(map[string]int{"total": id}); err != nil {
+		return err
+	}
 	for _, lk := range layoutOrder {
 		scs := layouts[lk]
-		env, err := newLayout(scs[0].b.Shards, scs[0].b.NRep, names)
+		if scs[len(scs)-1].id < *from || scs[0].id > *to {
+			continue
+		}
+		withDyn := false
+		for _, sc := range scs {
+			if len(sc.segs) > 1 && sc.id >= *from && sc.id <= *to {
+				withDyn = true
+			}
+		}
+		env, err := newLayout(scs[0].b.Shards, scs[0].b.NRep, names, withDyn)
 		if err != nil {
 			return err
 		}
-		for si, sc := range scs {
+		for _, sc := range scs {
+			if sc.id < *from || sc.id > *to {
+				continue
+			}
+			// the process hosting the processors may die in this scenario: say which one is running
+			what := fmt.Sprintf("layout %s, concurrent %v", lk, sc.conc)
+			for _, sg := range sc.segs {
+				what += fmt.Sprintf("; strategy %s: sessions %s", sg.Strategy, progsKey(sg.Progs))
+			}
+			if err := w.Write(map[string]interface{}{"begin": sc.id, "what": what}); err != nil {
+				env.close()
+				return err
+			}
 			n := *burst
-			if sc.wins["W_OverlapForeign"] {
+			if sc.wins["W_OverlapForeign"] && len(sc.segs) == 1 {
 				n *= *heavy
 			}
-			res := env.runScenario(lk, sc.b, sc.progs, sc.conc, n, *fan, kindOf, si*7)
+			res := env.runScenario(lk, sc, n, *fan, kindOf, sc.id*7)
+			res.ID = sc.id
 			res.Behaviours = sc.count
-			res.Windows = nil
 			for wn := range sc.wins {
 				res.Windows = append(res.Windows, wn)
 			}
@@ -360,22 +454,85 @@ func concurrent(args []string) error {
 	return nil
 }
 
-func (e *layoutEnv) runScenario(lk string, b *behaviour, progs map[string][]modelReq, conc bool, burst, fan int, kindOf map[string]string, rot int) concResult {
-	t0 := time.Now()
-	res := concResult{Layout: lk, Strategy: b.Strategy, Sessions: progs, Concurrent: conc, PerNode: map[string]int{}}
-	px := e.proxies[b.Strategy]
-	allowed := map[string]map[modelNode]bool{}
+type allowedTable map[string]map[modelNode]bool // "shard/kind" -> nodes
+
+func (b *behaviour) allowedUnder(st string) allowedTable {
+	t := allowedTable{}
 	for _, row := range b.Allowed {
+		if row.St != st {
+			continue
+		}
 		m := map[modelNode]bool{}
 		for _, n := range row.Nodes {
 			m[n] = true
 		}
-		allowed[row.Sh+"/"+row.Kind] = m
+		t[row.Sh+"/"+row.Kind] = m
 	}
+	return t
+}
+
+func (e *layoutEnv) runScenario(lk string, sc *scenario, burst, fan int, kindOf map[string]string, rot int) concResult {
+	t0 := time.Now()
+	b := sc.b
+	res := concResult{Layout: lk, Strategy: b.Strategy, Sessions: sc.segs[0].Progs, Concurrent: sc.conc, PerNode: map[string]int{}}
 	for _, n := range e.cl.Nodes {
 		n.ClearLog()
 	}
+	if len(sc.segs) == 1 {
+		px := e.proxies[b.Strategy]
+		moved0 := sut.ServiceStats(px.Name)["upstream.moved"]
+		e.runBurst(&res, px, sc.segs[0].Progs, sc.conc, burst, fan, rot, nil)
+		res.Moved = sut.ServiceStats(px.Name)["upstream.moved"] - moved0
+		e.judge(&res, kindOf, "steady", b.Strategy, b.allowedUnder(b.Strategy))
+		res.WallMs = time.Since(t0).Milliseconds()
+		return res
+	}
+	// run-time strategy changes on ONE running processor
+	res.Segments = sc.segs
+	// (the processor that was started with the behaviour's initial strategy; it is put back to it first)
+	started := sc.segs[0].Strategy
+	px := e.dyn[started]
 	moved0 := sut.ServiceStats(px.Name)["upstream.moved"]
+	if err := e.setStrategy(started, sc.segs[0].Strategy); err != nil {
+		res.Err = "OnSvcConfigUpdate: " + err.Error()
+		return res
+	}
+	for k, sg := range sc.segs {
+		phase := "steady"
+		if k > 0 {
+			phase = "after-config-update"
+			prev := sc.segs[k-1]
+			if sg.UpdateInFlight && len(prev.Progs) > 0 {
+				// the update arrives while decisions are in flight: the previous segment's traffic runs once more and
+				// the strategy changes in the middle of it; these arrivals may follow either strategy
+				var uerr error
+				e.runBurst(&res, px, prev.Progs, sc.conc, burst, fan, rot+k, func() { uerr = e.setStrategy(started, sg.Strategy) })
+				if uerr != nil {
+					res.Err = "OnSvcConfigUpdate: " + uerr.Error()
+					return res
+				}
+				e.judge(&res, kindOf, "during-config-update", prev.Strategy+" -> "+sg.Strategy, b.allowedUnder(prev.Strategy), b.allowedUnder(sg.Strategy))
+			} else if err := e.setStrategy(started, sg.Strategy); err != nil {
+				res.Err = "OnSvcConfigUpdate: " + err.Error()
+				return res
+			}
+		}
+		if len(sg.Progs) == 0 {
+			continue
+		}
+		e.runBurst(&res, px, sg.Progs, sc.conc, burst, fan, rot+k, nil)
+		a0 := res.Arrivals
+		e.judge(&res, kindOf, phase, sg.Strategy, b.allowedUnder(sg.Strategy))
+		sg.Arrivals = res.Arrivals - a0
+	}
+	res.Moved = sut.ServiceStats(px.Name)["upstream.moved"] - moved0
+	res.WallMs = time.Since(t0).Milliseconds()
+	return res
+}
+
+// runBurst: every model session becomes fan connections that pipeline its requests burst times; mid (if any) is
+// called once when about half of the replies have arrived.
+func (e *layoutEnv) runBurst(res *concResult, px *sut.Redis, progs map[string][]modelReq, conc bool, burst, fan, rot int, mid func()) {
 	var names []string
 	for s := range progs {
 		names = append(names, s)
@@ -390,6 +547,7 @@ func (e *layoutEnv) runScenario(lk string, b *behaviour, progs map[string][]mode
 	}
 	var groups [][]*connJob // jobs that start together
 	var all []*connJob
+	total := 0
 	for si, s := range names {
 		var g []*connJob
 		f := fan
@@ -400,7 +558,7 @@ func (e *layoutEnv) runScenario(lk string, b *behaviour, progs map[string][]mode
 			c, err := sut.Dial(px.Addr)
 			if err != nil {
 				res.Err = "dial: " + err.Error()
-				return res
+				return
 			}
 			j := &connJob{c: c}
 			for r := 0; r < burst; r++ {
@@ -412,6 +570,7 @@ func (e *layoutEnv) runScenario(lk string, b *behaviour, progs map[string][]mode
 					j.sent = append(j.sent, a[0])
 				}
 			}
+			total += j.want
 			g = append(g, j)
 			all = append(all, j)
 		}
@@ -426,8 +585,11 @@ func (e *layoutEnv) runScenario(lk string, b *behaviour, progs map[string][]mode
 			j.c.Close()
 		}
 	}()
-	res.Conns = len(all)
+	res.Conns += len(all)
 	var mu sync.Mutex
+	var midOnce sync.Once
+	var midWG sync.WaitGroup
+	received := 0
 	for _, g := range groups {
 		start := make(chan struct{})
 		var wg sync.WaitGroup
@@ -438,6 +600,9 @@ func (e *layoutEnv) runScenario(lk string, b *behaviour, progs map[string][]mode
 				<-start
 				for off := 0; off < len(j.buf); {
 					end := off + 32*1024
+					if mid != nil {
+						end = off + 2*1024 // keep commands arriving while the configuration changes
+					}
 					if end > len(j.buf) {
 						end = len(j.buf)
 					}
@@ -469,12 +634,18 @@ func (e *layoutEnv) runScenario(lk string, b *behaviour, progs map[string][]mode
 					case j.kinds[got] != "unsupported" && rejected:
 						bad = fmt.Sprintf("supported-rejected: %q (%s) was answered %s", j.sent[got], j.kinds[got], rv.String())
 					}
-					if bad != "" {
-						mu.Lock()
-						if len(res.BadReplies) < 5 {
-							res.BadReplies = append(res.BadReplies, bad)
-						}
-						mu.Unlock()
+					mu.Lock()
+					if bad != "" && len(res.BadReplies) < 5 {
+						res.BadReplies = append(res.BadReplies, bad)
+					}
+					received++
+					fire := mid != nil && received >= total/2
+					mu.Unlock()
+					if fire {
+						midOnce.Do(func() {
+							midWG.Add(1)
+							go func() { defer midWG.Done(); mid() }()
+						})
 					}
 					got++
 				}
@@ -486,11 +657,19 @@ func (e *layoutEnv) runScenario(lk string, b *behaviour, progs map[string][]mode
 		close(start)
 		wg.Wait()
 	}
+	if mid != nil {
+		midOnce.Do(mid) // (no reply at all: still change the configuration)
+		midWG.Wait()
+	}
 	for _, j := range all {
 		res.Sent += j.want
 	}
 	time.Sleep(2 * time.Millisecond)
-	res.Moved = sut.ServiceStats(px.Name)["upstream.moved"] - moved0
+}
+
+// judge: every data command that arrived at a node since the logs were cleared must be allowed by one of the
+// tables; the logs are cleared afterwards.
+func (e *layoutEnv) judge(res *concResult, kindOf map[string]string, phase, label string, tables ...allowedTable) {
 	for _, n := range e.cl.Nodes {
 		id := e.nodeID[n.Idx]
 		for _, rec := range simredis.DataCommands(n.Records()) {
@@ -508,7 +687,13 @@ func (e *layoutEnv) runScenario(lk string, b *behaviour, progs map[string][]mode
 			} else if kind == "read" || kind == "write" {
 				continue // a forwarded command without a key has no owner (none is sent by this driver)
 			}
-			if allowed[keySh+"/"+kind][id] {
+			okAny := false
+			for _, t := range tables {
+				if t[keySh+"/"+kind][id] {
+					okAny = true
+				}
+			}
+			if okAny {
 				continue
 			}
 			res.BadCount++
@@ -523,16 +708,21 @@ func (e *layoutEnv) runScenario(lk string, b *behaviour, progs map[string][]mode
 				case "unsupported", "local":
 					class = kind + "-forwarded"
 				}
-				var al []string
-				for n := range allowed[keySh+"/"+kind] {
-					al = append(al, n.String())
+				al := map[string]bool{}
+				for _, t := range tables {
+					for n := range t[keySh+"/"+kind] {
+						al[n.String()] = true
+					}
 				}
-				sort.Strings(al)
-				res.Bad = append(res.Bad, badArrival{Cmd: cmd, Key: key, KeySh: keySh, Kind: kind, Node: id.String(), Class: class,
-					Detail: fmt.Sprintf("%s %s (key of shard %s, %s) arrived at %s; allowed under %s: %v", strings.ToUpper(cmd), key, keySh, kind, id, b.Strategy, al)})
+				var als []string
+				for a := range al {
+					als = append(als, a)
+				}
+				sort.Strings(als)
+				res.Bad = append(res.Bad, badArrival{Cmd: cmd, Key: key, KeySh: keySh, Kind: kind, Node: id.String(), Class: class, Phase: phase,
+					Detail: fmt.Sprintf("%s %s (key of shard %s, %s) arrived at %s; allowed under %s: %v", strings.ToUpper(cmd), key, keySh, kind, id, label, als)})
 			}
 		}
+		n.ClearLog()
 	}
-	res.WallMs = time.Since(t0).Milliseconds()
-	return res
 }
